@@ -247,6 +247,26 @@ def jobs_for(tier, rng):
         if d2:
             for tol in tols + [0.5]:
                 jobs.append((sh, sh, tol, "identity-or-any", "%s=respelled" % n, d_of(sh), d2))
+    # the same NUMBERS under relative letters are another outline (vertices are running sums): whatever is
+    # reported for (absolute spelling, relative spelling of the same numbers) must map onto that outline
+    for n in names:
+        sh = SHAPES[n]
+        if not all(sg[0] in ("L", "Z") for _, sgs in sh for sg in sgs) or len(sh) != 1:
+            continue
+        start, segs = sh[0]
+        cur, segs2, parts = start, [], ["M%r,%r" % (float(start[0]), float(start[1]))]
+        for sg in segs:
+            if sg[0] == "Z":
+                segs2.append(sg)
+                parts.append("z")
+            else:
+                cur = (cur[0] + sg[1][0], cur[1] + sg[1][1])
+                segs2.append(("L", cur))
+                parts.append("l%r,%r" % (float(sg[1][0]), float(sg[1][1])))
+        other = [(start, segs2)]
+        for tol in tols:
+            jobs.append((sh, other, tol, "any", "%s vs same-numbers-relative" % n, d_of(sh), " ".join(parts)))
+            jobs.append((other, sh, tol, "any", "same-numbers-relative vs %s" % n, " ".join(parts), d_of(sh)))
     # the fine regime: coordinates up to ~1000, tolerance 0.001, transforms with irrational entries (no
     # short decimal rounding of the matrix is exact, so the library's own verification of its roundings
     # is what keeps the result sound)
